@@ -41,6 +41,9 @@ static void check_gate(World &w, int g, int va, int vb, int vc, int ca, int cb, 
     make_input(w, a, va, ca);
     if (s.arity >= 2) make_input(w, b, vb, cb);
     if (s.arity >= 3) make_input(w, c, vc, cc);
+    // the variance annotation of a ciphertext is advisory: whatever value it carries (zero, tiny, huge), the gate's result is the same
+    { static const double vars[] = {0., 1e-300, 1e-12, 0.25, 1e6}; LweSample *ins[3] = {a, b, c};
+      for (int i = 0; i < s.arity; i++) if (rng.below(3) == 0) ins[i]->current_variance = vars[rng.below(5)]; }
     VH_OP("boots%s:%s:%s,%s,%s", s.name, w.cfg.c_str(), cls_name[ca], s.arity >= 2 ? cls_name[cb] : "-", s.arity >= 3 ? cls_name[cc] : "-");
     gate_eval(g, r, a, b, c, va, w.ck);
     int got = bootsSymDecrypt(r, w.sk);
@@ -69,6 +72,34 @@ static void check_gate(World &w, int g, int va, int vb, int vc, int ca, int cb, 
         out.sample(J().s("gate", s.name).s("config", w.cfg).i("a", va).i("b", vb).i("c", vc).s("classes", std::string(cls_name[ca]) + "," + cls_name[cb] + "," + cls_name[cc]).i("decrypted", got)
                            .d("phase_a", (double) (int32_t) sk_phase(a, w.sk) / 4294967296.0).d("phase_out", (double) (int32_t) sk_phase(r, w.sk) / 4294967296.0));
     delete_gate_bootstrapping_ciphertext(r); delete_gate_bootstrapping_ciphertext(c); delete_gate_bootstrapping_ciphertext(b); delete_gate_bootstrapping_ciphertext(a);
+}
+
+// the same ciphertext object in two (or three) operand roles: gate(r, a, a), MUX(r, a, a, c), MUX(r, a, b, a), MUX(r, a, b, b),
+// MUX(r, a, a, a). Operands are inputs only, so sharing one object between them is ordinary use.
+static void check_shared_operands(World &w, int cls) {
+    LweSample *a = new_gate_bootstrapping_ciphertext(w.params), *b = new_gate_bootstrapping_ciphertext(w.params), *r = new_gate_bootstrapping_ciphertext(w.params);
+    for (int va = 0; va < 2; va++) {
+        for (int g = 0; g < G_MUX; g++) {
+            make_input(w, a, va, cls);
+            VH_OP("boots%s(r,a,a):%s:%s", GATES[g].name, w.cfg.c_str(), cls_name[cls]);
+            gate_eval(g, r, a, a, a, va, w.ck);
+            out.evaluations++;
+            if (bootsSymDecrypt(r, w.sk) != gate_truth(g, va, va, 0)) out.viol(std::string("gate:wrong-output:") + GATES[g].name, J().s("gate", GATES[g].name).s("config", w.cfg).i("a", va).s("operands", "the same object twice").s("class_a", cls_name[cls]));
+        }
+        for (int vb = 0; vb < 2; vb++) for (int shape = 0; shape < 4; shape++) {
+            make_input(w, a, va, cls); make_input(w, b, vb, cls);
+            const LweSample *x = a, *y = shape == 0 ? a : b, *z = shape == 0 ? b : shape == 1 ? a : shape == 2 ? b : a;
+            if (shape == 3) { y = a; z = a; }
+            int vx = va, vy = (y == a) ? va : vb, vz = (z == a) ? va : vb;
+            static const char *sn[] = {"MUX(a,a,c)", "MUX(a,b,a)", "MUX(a,b,b)", "MUX(a,a,a)"};
+            VH_OP("boots%s:%s:%s", sn[shape], w.cfg.c_str(), cls_name[cls]);
+            bootsMUX(r, x, y, z, w.ck);
+            out.evaluations++;
+            if (bootsSymDecrypt(r, w.sk) != gate_truth(G_MUX, vx, vy, vz)) out.viol("gate:wrong-output:MUX", J().s("gate", "MUX").s("config", w.cfg).i("a", vx).i("b", vy).i("c", vz).s("operands", sn[shape]).s("class_a", cls_name[cls]));
+        }
+    }
+    char cell[128]; snprintf(cell, sizeof cell, "%s:same-object-in-several-operand-roles:%s", w.cfg.c_str(), cls_name[cls]); out.cell(cell, 2 * G_MUX + 16);
+    delete_gate_bootstrapping_ciphertext(r); delete_gate_bootstrapping_ciphertext(b); delete_gate_bootstrapping_ciphertext(a);
 }
 
 int main(int argc, char **argv) {
@@ -111,6 +142,7 @@ int main(int argc, char **argv) {
         if (level == "full") { triples.push_back({INJ_P1, INJ_M1, INJ_P1}); triples.push_back({CONST, CONST, CONST}); triples.push_back({INJ_U, BOOT, INJ_U}); }
     }
     for (int v = 0; v < 8; v++) for (auto &t: triples) check_gate(w, G_MUX, v & 1, (v >> 1) & 1, (v >> 2) & 1, t[0], t[1], t[2]);
+    for (int cls: {FRESH, BOOT, CONST, INJ_P, INJ_M}) { if (level == "lite" && cls != FRESH && cls != INJ_M) continue; check_shared_operands(w, cls); }
     // NOT / COPY / CONSTANT
     for (int va = 0; va < 2; va++) for (int cls = 0; cls < NCLASS; cls++) { check_gate(w, G_NOT, va, 0, 0, cls, FRESH, FRESH); check_gate(w, G_COPY, va, 0, 0, cls, FRESH, FRESH); }
     check_gate(w, G_CONSTANT, 0, 0, 0, CONST, FRESH, FRESH); check_gate(w, G_CONSTANT, 1, 0, 0, CONST, FRESH, FRESH);
